@@ -5,9 +5,18 @@
 #include <thread>
 #include <stdexcept>
 #include <cmath>
+#include <functional>
 
 namespace HV
 {
+    // one-shot action run from inside the user's running-cost functor, i.e. in the middle of an evaluate() call
+    // (e.g. "keep a snapshot of the optimizer"): set by the harness right before that call, empty otherwise
+    inline std::function<void()> &snapshotHook()
+    {
+        static std::function<void()> h;
+        return h;
+    }
+
     struct CostSpec
     {
         double ta, tb, tc;
@@ -107,6 +116,12 @@ namespace HV
             constexpr int L = D - 1;
             // pertKind 9: the user's functor aborts the evaluation by throwing at its (pertIdx+1)-th call
             if (s->pertKind == 9 && calls++ >= s->pertIdx) throw std::runtime_error("running cost aborted the evaluation");
+            if (snapshotHook())
+            {
+                auto f = std::move(snapshotHook());
+                snapshotHook() = nullptr;
+                f();
+            }
             const double ii = (double)(i + 1);
             if (rec)
             {
